@@ -114,7 +114,7 @@ fn main() {
         }
         "rec-stages-tri" => stages::rec_stages_tri(geti(&m, "n", 2), geti(&m, "l", 840), geti(&m, "from", 0) as usize, geti(&m, "stride", 1) as usize,
             geti(&m, "matrix", 40) as usize, geti(&m, "rid0", 1) as u64),
-        "stage-inputs" => stages::stage_inputs(gets(&m, "file", "")),
+        "stage-inputs" => stages::stage_inputs(gets(&m, "file", ""), geti(&m, "rid0", 1) as u64, geti(&m, "matrix", 0) as usize, gets(&m, "family", "literal")),
         "float-pi" => stages::float_pi(geti(&m, "count", 1000) as u64, geti(&m, "seed", 1) as u64),
         "replay-sweep" => stages::replay_sweep(gets(&m, "file", "")),
         "replay-pi" => {
